@@ -766,6 +766,12 @@ def _nm(v):
 
 # ====================================================================================================================
 def companion_rules(repo, chk, rule="R-C05-8", branch_rule=None):
+    """see _companion_rules_variant: run on both variants of the fixture model (variant B adds a pump-speed control, and a rule with two ELSE actions one of which sets a pump speed)"""
+    for variant in ("A", "B"):
+        _companion_rules_variant(repo, chk, rule, branch_rule, variant)
+
+
+def _companion_rules_variant(repo, chk, rule, branch_rule, variant):
     """R-C05-8 (T3, bounded to one fixture model).  A control `IF cond THEN valve SETTING x` (or pump SPEED) only takes effect if the link is also put
     into the status in which the value applies; the simulator adds a companion status control for that.  The priority exception of the property ("unless
     a triggered control of equal or higher priority conflicts") is decided among the controls THE SIMULATOR RUNS, so the companion must compete with
@@ -784,7 +790,7 @@ def companion_rules(repo, chk, rule="R-C05-8", branch_rule=None):
     I = world.interp
     call = lambda o, m, *a, **k: I.call(I.getattr_(o, m), list(a), k)
     try:
-        wn = build_fixture_model(repo, world)
+        wn = build_fixture_model(repo, world, variant)
         Cc = {n: world.function(CTRL, n) for n in ("SimTimeCondition", "ValueCondition", "ControlAction", "Control", "Rule")}
         v1, v4, pu1, pu2, t1 = (call(wn, "get_link", "V1"), call(wn, "get_link", "V4"), call(wn, "get_link", "PU1"), call(wn, "get_link", "PU2"), call(wn, "get_node", "T1"))
         extra = [("x_set_low", Cc["Control"](Cc["ValueCondition"](t1, "level", ">=", 3.0), Cc["ControlAction"](v1, "setting", 25.0), priority=1)),
@@ -812,7 +818,7 @@ def companion_rules(repo, chk, rule="R-C05-8", branch_rule=None):
                 if attr not in made:
                     continue
                 n += 1
-                what = "%s %r: %s %s" % (control._cls.name, cname, I.getattr_(tgt, "name"), attr)
+                what = "%s %r: %s %s%s" % (control._cls.name, cname, I.getattr_(tgt, "name"), attr, "" if variant == "A" else " [fixture variant %s]" % variant)
                 comps = []
                 for k in made[attr]:
                     if I.getattr_(k, "condition") is not I.getattr_(control, "condition"):
@@ -1194,7 +1200,7 @@ def run(repo, chk):
 
     # ---------------------------------------------------------------- R-C05-8 companion status controls of setting / speed controls
     companion_rules(repo, chk)
-    chk.floor("R-C05-8", 8)
+    chk.floor("R-C05-8", 30)
 
     # ---------------------------------------------------------------- R-C05-6 the partial step of a tank-level condition does not depend on who asked first
     tle = repo.func(CTRL, "TankLevelCondition.evaluate")
